@@ -40,11 +40,16 @@ OsOfUnix(p) == {i \in 0..8 : Bit(p, i)}
                \cup (IF Bit(p, 10) THEN {22} ELSE {})    \* setgid -> ModeSetgid
                \cup (IF Bit(p, 9)  THEN {20} ELSE {})    \* sticky -> ModeSticky
 \* os.FileMode bits -> POSIX permission value; every other bit (type bits, unused bits) is dropped
-RECURSIVE SumP2(_)
-SumP2(S) == IF S = {} THEN 0 ELSE LET i == CHOOSE x \in S : TRUE IN P2[i + 1] + SumP2(S \ {i})
-UnixOfOs(bits) == SumP2(bits \cap (0..8))
-                  + (IF 23 \in bits THEN 2048 ELSE 0) + (IF 22 \in bits THEN 1024 ELSE 0)
-                  + (IF 20 \in bits THEN 512 ELSE 0)
+\* (a FUNCTION of the bit set: TLC evaluates function arguments once; operator arguments are
+\*  substituted lazily and re-evaluated at every reference)
+UnixOfOsF[bits \in SUBSET (0..31)] ==
+      (IF 0 \in bits THEN 1 ELSE 0)  + (IF 1 \in bits THEN 2 ELSE 0)   + (IF 2 \in bits THEN 4 ELSE 0)
+    + (IF 3 \in bits THEN 8 ELSE 0)  + (IF 4 \in bits THEN 16 ELSE 0)  + (IF 5 \in bits THEN 32 ELSE 0)
+    + (IF 6 \in bits THEN 64 ELSE 0) + (IF 7 \in bits THEN 128 ELSE 0) + (IF 8 \in bits THEN 256 ELSE 0)
+    + (IF 20 \in bits THEN 512 ELSE 0)                                   \* ModeSticky -> sticky
+    + (IF 22 \in bits THEN 1024 ELSE 0)                                  \* ModeSetgid -> setgid
+    + (IF 23 \in bits THEN 2048 ELSE 0)                                  \* ModeSetuid -> setuid
+UnixOfOs(bits) == UnixOfOsF[bits]
 PermOsBits == (0..8) \cup {20, 22, 23}
 TypeBits(t) == IF t \in {"Directory", "HAMTShard"} THEN {31} ELSE IF t = "Symlink" THEN {27} ELSE {}
 
@@ -114,9 +119,8 @@ ModeObs     == IF perm = 0 THEN {} ELSE OsOfUnix(perm) \cup TypeBits(typ)
 ExtObs      == ext
 ModTimeObs  == mtime                                  \* ZeroTime: ModTime().IsZero()
 MtimeWire   == [present |-> ~IsZeroTime(mtime), nanos |-> ~IsZeroTime(mtime) /\ mtime.ns > 0]
-RECURSIVE SumSeq(_)
-SumSeq(s) == IF s = <<>> THEN 0 ELSE s[1] + SumSeq(Tail(s))
-Content     == dlen + SumSeq(blocks)
+SumBlocks   == LET S[k \in 0..Len(blocks)] == IF k = 0 THEN 0 ELSE S[k - 1] + blocks[k] IN S[Len(blocks)]
+Content     == dlen + SumBlocks
 FileSizeObs == IF typ \in {"File", "Raw"} THEN fsize ELSE IF typ = "Symlink" THEN dlen ELSE 0
 DataSizeErr == typ \in {"Directory", "HAMTShard", "Metadata"}    \* DataSize(bytes) refuses these
 
